@@ -1,9 +1,10 @@
 (* Extraction of the executable models to OCaml.  ExtrOcamlBasic only: bool, option, list,
    prod, unit, sumbool are mapped to OCaml's; N, positive, nat, Z stay the extracted datatypes. *)
 Require Import ExtrOcamlBasic.
-From SKV Require Import Params Base.Crc32 Codec.Wal Codec.WalInst Base.Lex Txn.WriteSet Spec.Store Spec.Cursor Spec.Machine.
+From SKV Require Import Params Base.Crc32 Codec.Wal Codec.WalInst Base.Lex Txn.WriteSet Spec.Store Spec.Cursor Spec.Machine Lsm.CompactKey.
 Extraction Language OCaml.
 Extraction "skv_model.ml"
   WalInst.wal_sessions WalInst.wal_read_all WalInst.wal_repair WalInst.wal_known_unparsed_tail WalInst.wal_params_ok WalInst.WB
   Params.WAL_BLOCK_SIZE Params.WAL_HEADER_SIZE
-  Machine.step Machine.m0.
+  Machine.step Machine.m0
+  CompactKey.compact_key CompactKey.insert_desc CompactKey.dedup_seq.
